@@ -1,1 +1,73 @@
-// hooks for src/connection.rs (none needed yet)
+// hooks for src/connection.rs
+#![allow(dead_code, unused_imports)]
+use super::*;
+
+// BOUNDED second line behind CONN/Connection::recv_frame + parse_frame (C06 "every complete message already received is delivered
+// without waiting for further bytes", C07 "decoding ... consumes exactly its length"): the peer writes several messages in ONE
+// segment and then stays silent (or closes); the REAL recv_frame must hand out each of them in turn without another byte
+// arriving, and then report the clean end of the stream.  Real loopback sockets; fixed message sequences.
+#[cfg(all(test, rdest_verif))]
+mod native {
+    use super::*;
+    use tokio::io::AsyncWriteExt;
+    use tokio::net::{TcpListener, TcpStream};
+    use tokio::time::{timeout, Duration};
+
+    fn describe(f: &Frame) -> String {
+        match f {
+            Frame::KeepAlive(_) => "keep-alive".into(), Frame::Choke(_) => "choke".into(), Frame::Unchoke(_) => "unchoke".into(),
+            Frame::Interested(_) => "interested".into(), Frame::NotInterested(_) => "not-interested".into(),
+            Frame::Have(h) => format!("have {}", h.piece_index()), Frame::Request(_) => "request".into(), Frame::Cancel(_) => "cancel".into(),
+            Frame::Piece(_) => "piece".into(), Frame::Bitfield(_) => "bitfield".into(), Frame::Handshake(_) => "handshake".into(),
+        }
+    }
+    async fn segment_case(bytes: Vec<u8>, want: Vec<&'static str>, close: bool) {
+        let listener = TcpListener::bind("127.0.0.1:0").await.unwrap();
+        let addr = listener.local_addr().unwrap();
+        let payload = bytes.clone();
+        let peer = tokio::spawn(async move {
+            let mut s = TcpStream::connect(addr).await.unwrap();
+            s.write_all(&payload).await.unwrap();
+            if !close { tokio::time::sleep(Duration::from_secs(20)).await; }
+            drop(s);
+        });
+        let (socket, remote) = listener.accept().await.unwrap();
+        let mut c = Connection::new(remote.to_string());
+        c.with_socket(socket);
+        for (k, w) in want.iter().enumerate() {
+            let got = timeout(Duration::from_secs(3), c.recv_frame()).await;
+            match got {
+                Err(_) => panic!("message {} ({}) of a segment holding {:?} was not delivered although it is completely buffered: the decoder waits for more bytes", k + 1, w, want),
+                Ok(Err(e)) => panic!("message {} ({}) of a segment holding {:?}: error {:?}", k + 1, w, want, e),
+                Ok(Ok(None)) => panic!("message {} ({}) of a segment holding {:?}: end of stream reported instead", k + 1, w, want),
+                Ok(Ok(Some(f))) => assert!(describe(&f) == *w, "message {} of a segment holding {:?} was decoded as {}", k + 1, want, describe(&f)),
+            }
+        }
+        if close {
+            match timeout(Duration::from_secs(3), c.recv_frame()).await {
+                Ok(Ok(None)) => (),
+                other => panic!("after {:?} and a clean close: {:?} instead of the end of the stream", want, other.map(|r| r.map(|o| o.map(|f| describe(&f))))),
+            }
+        }
+        peer.abort();
+    }
+    #[test]
+    fn native_c06_buffered_frames_are_delivered_without_more_bytes() {
+        let rt = tokio::runtime::Builder::new_current_thread().enable_all().build().unwrap();
+        rt.block_on(async {
+            let have = |i: u8| vec![0u8, 0, 0, 5, 4, 0, 0, 0, i];
+            let ka = vec![0u8, 0, 0, 0];
+            let choke = vec![0u8, 0, 0, 1, 0];
+            let unknown = vec![0u8, 0, 0, 3, 20, 1, 2];                 // an id the client does not know: skipped
+            let cancel = vec![0u8, 0, 0, 13, 8, 0, 0, 0, 1, 0, 0, 0, 0, 0, 0, 0x40, 0];
+            for close in [false, true] {
+                segment_case([have(3), have(5)].concat(), vec!["have 3", "have 5"], close).await;
+                segment_case([ka.clone(), choke.clone(), have(7)].concat(), vec!["keep-alive", "choke", "have 7"], close).await;
+                segment_case([ka.clone(), ka.clone(), have(1)].concat(), vec!["keep-alive", "keep-alive", "have 1"], close).await;
+                segment_case([unknown.clone(), have(2), unknown.clone(), choke.clone()].concat(), vec!["have 2", "choke"], close).await;
+                segment_case([cancel.clone(), have(9), cancel.clone()].concat(), vec!["cancel", "have 9", "cancel"], close).await;
+                segment_case(have(4), vec!["have 4"], close).await;
+            }
+        });
+    }
+}
